@@ -237,6 +237,9 @@ func oracleCase(f []string) string {
 		return refInt(unhex(f[1]), r[0].(bool), r[1].(*big.Int), r[2].(*big.Int))
 	case "harr", "hobj":
 		if !wellBehaved(f[2]) {
+			if r := oracleHandlerError(f); r != "-" {
+				return r
+			}
 			return oracleOutOfRange(f)
 		}
 		d := unhex(f[1])
@@ -387,6 +390,42 @@ func oracleOutOfRange(f []string) string {
 			return "err # site=" + site
 		}
 		return "-" // an in-range but wrong offset: behaviour unspecified
+	}
+	return "-"
+}
+
+// oracleHandlerError: C09.  For a well-formed array/object whose first k calls are answered
+// well-behavedly and whose call k is answered with an error (script entry eN, any offset N),
+// the traversal must return that very error after exactly k+1 calls (the members in order).
+func oracleHandlerError(f []string) string {
+	d := unhex(f[1])
+	if maxDepth(d) > 10000 {
+		return "-"
+	}
+	obj := f[0] == "hobj"
+	ms, _, ok := members(d, obj)
+	if !ok {
+		return "-"
+	}
+	for k, e := range strings.Split(f[2], ",") {
+		if k >= len(ms) {
+			return "-"
+		}
+		if e == "0" || e == "x" || e == "r" {
+			continue
+		}
+		if !strings.HasPrefix(e, "e") {
+			return "-"
+		}
+		var parts []string
+		for _, m := range ms[:k+1] {
+			if obj {
+				parts = append(parts, fmt.Sprintf("%d:%s", m.p, hx(m.key)))
+			} else {
+				parts = append(parts, strconv.Itoa(m.p))
+			}
+		}
+		return "herr | " + strings.Join(parts, ",")
 	}
 	return "-"
 }
